@@ -319,7 +319,7 @@ class SchemaBuilder(
                 additional_properties = self._properties_schema(
                     self._object_schema(cls, field)
                 )
-        alias_by_names = {f.name: f.alias for f in fields}.__getitem__
+        alias_by_names = {f.name: AliasedStr(f.alias) for f in fields}.__getitem__
         dependent_required = get_dependent_required(cls)
         result = []
         if discriminator_parent := get_discriminated_parent(cls):
